@@ -181,8 +181,8 @@ def check_case(case, rec):
                 r = prog.commands[name(i)].result
                 if op == "read_twice":
                     r2 = prog.commands[name(i)].result
-                    if r2 is not r:
-                        fails.append(Failure("result_identity_changes|%s" % sc, "two reads of %s gave different objects" % name(i)))
+                    if r2 != r:
+                        fails.append(Failure("result_changes_between_reads|%s" % sc, "two reads of %s gave %r and %r" % (name(i), r, r2)))
                 want = executed | deps(nodes, i)
                 exp = expected_term(nodes, i)
                 if r != exp:
